@@ -126,7 +126,7 @@ func vxName() string {
 // inside a protected directory is refused, and one outside is not refused on these grounds.
 func VerifC20_PathGuard() {
 	defer vxCleanupScratch()
-	fam := vxPick(8)
+	fam := vxPick(9)
 	ro := vxBool()
 	maxLen := vxParam("maxlen", 10)
 	S := vxScratch()
@@ -187,6 +187,22 @@ func VerifC20_PathGuard() {
 		vxFSEntry(name, 3, "")
 		vxFSEntry(full, 0, full)
 		dbPath, loc = name, full
+	case 7: // absolute path whose first component does not exist, followed by ".." and the real location
+		var tail string
+		if vxParam("fam7sym", 0) == 1 {
+			tl := maxLen
+			if tl > 7 {
+				tl = 7
+			}
+			tail = vxConcretizeLen(vxStr(tl))
+			vxAssume(vxAnd(vxCleanAbs(tail), vxPathBytes(tail)))
+			vxAssume(!vxStrEq(tail, "/"))
+		} else {
+			pool := []string{"/boot/x", "/etc/x", "/usr/lib/x", "/var/x", "/bootx/a", "/sbin"}
+			tail = pool[vxPick(len(pool))]
+		}
+		vxFSDefault(1)
+		dbPath, loc = "/vxm/.."+tail, tail
 	default: // resolution fails for a reason other than non-existence (symlink loop)
 		dbPath = S + "/loop"
 		vxMkSymlink(dbPath, dbPath)
